@@ -484,11 +484,48 @@ def immediate_after_exception_test(prog, fn, vid, rhs, pd, dom, pos):
     return False
 
 
+def callback_callers(prog):
+    """functions that apply a procedure they were handed as an argument (a comparator, a hash function ...):
+    {name: set of parameter indexes}.  A procedure of the program's choosing may allocate, so under the
+    property's quantifier a call of such a function is a collection point like a must-allocate call."""
+    out = {}
+    changed = True
+    rounds = 0
+    while changed and rounds < 5:
+        changed = False
+        rounds += 1
+        for fn in prog.all_funcs():
+            if not fn.blocks:
+                continue
+            for nd in fn.nodes:
+                if nd["k"] != "call" or not nd.get("o"):
+                    continue
+                name = nd["o"]
+                args = nd["c"][1:]
+                idxs = set()
+                if name.startswith("sexp_apply") and len(args) >= 2:
+                    idxs = {1}
+                elif name in out:
+                    idxs = out[name]
+                for k in idxs:
+                    if k < len(args):
+                        a = fn.strip(args[k])
+                        an = fn.nodes[a]
+                        if an["k"] == "ref" and an.get("d") in fn.params:
+                            pk = fn.params.index(an["d"])
+                            if pk not in out.setdefault(fn.name, set()):
+                                out[fn.name].add(pk)
+                                changed = True
+    return {k: v for k, v in out.items() if v}
+
+
 def run_r3a(prog, res, cg, must=None, prod=None):
     from cfg import elem_positions, enclosing_elem, dominators, dominates, redefined_between
     stat = res.stat("C02.R3a", "a freshly allocated object held only in an unrooted C local is not used after a later "
                     "allocation in the same function", floor=100)
     must = must or must_alloc_functions(prog, cg)
+    cbs = callback_callers(prog)
+    must = set(must) | set(cbs)
     prod = prod or producers(prog, cg, strict=False)
     dstp = dst_producers(prog, cg, prod)
     unsafe = unsafe_params(prog, cg, must)
@@ -627,8 +664,8 @@ def run_r3a(prog, res, cg, must=None, prod=None):
                 res.add(Finding("C02", "R3a.unrooted-fresh-local", fn.name, "%s = %s(...) across %s" %
                                 (name, fn.nodes[rhs]["o"], fn.nodes[c]["o"]), fn.where(d),
                                 "%s holds the result of %s only in the unrooted local `%s`, then calls %s (which always "
-                                "allocates) at %s and uses `%s` again afterwards at %s: a collection at that allocation "
-                                "reclaims the object" % (fn.name, fn.nodes[rhs]["o"], name, fn.nodes[c]["o"], fn.where(c),
+                                "allocates, or applies a procedure it was handed) at %s and uses `%s` again afterwards at %s: "
+                                "a collection at that allocation reclaims the object" % (fn.name, fn.nodes[rhs]["o"], name, fn.nodes[c]["o"], fn.where(c),
                                                          name, fn.where(r)), unit=fn.unit.display))
     return stat
 
